@@ -250,14 +250,14 @@ def bdryMem (τ : Tol K) : Dom K → Env K → Env K → Prop
   | .inter a b, pts, ρ => (bdryMem τ a pts ρ ∧ mem b pts ρ) ∨ (bdryMem τ b pts ρ ∧ mem a pts ρ)
   | .prod a b, pts, ρ => (bdryMem τ a pts ρ ∧ mem b pts ρ) ∨ (mem a pts ρ ∧ bdryMem τ b pts ρ)
   | .translate v d t, pts, ρ =>
-    (∃ x tx, pts.get v = some [x] ∧ t.f (pts ++ ρ) = [tx] ∧ bdryMem τ d [(v, [x - tx])] ρ) ∨
-    (∃ x y tx ty, pts.get v = some [x, y] ∧ t.f (pts ++ ρ) = [tx, ty] ∧ bdryMem τ d [(v, [x - tx, y - ty])] ρ) ∨
+    (∃ x tx, pts.get v = some [x] ∧ t.f (pts ++ ρ) = [tx] ∧ bdryMem τ d [(v, [x - tx])] (pts.filter (fun b => b.1 != v) ++ ρ)) ∨
+    (∃ x y tx ty, pts.get v = some [x, y] ∧ t.f (pts ++ ρ) = [tx, ty] ∧ bdryMem τ d [(v, [x - tx, y - ty])] (pts.filter (fun b => b.1 != v) ++ ρ)) ∨
     (∃ x y z tx ty tz, pts.get v = some [x, y, z] ∧ t.f (pts ++ ρ) = [tx, ty, tz] ∧
-      bdryMem τ d [(v, [x - tx, y - ty, z - tz])] ρ)
+      bdryMem τ d [(v, [x - tx, y - ty, z - tz])] (pts.filter (fun b => b.1 != v) ++ ρ))
   | .rotate v d m c, pts, ρ =>
     ∃ x y m00 m01 m10 m11 cx cy, pts.get v = some [x, y] ∧ m.f (pts ++ ρ) = [m00, m01, m10, m11] ∧ c.f (pts ++ ρ) = [cx, cy] ∧
       bdryMem τ d [(v, [(m11 * (x - cx) - m01 * (y - cy)) / (m00 * m11 - m01 * m10) + cx,
-                          (m00 * (y - cy) - m10 * (x - cx)) / (m00 * m11 - m01 * m10) + cy])] ρ
+                          (m00 * (y - cy) - m10 * (x - cx)) / (m00 * m11 - m01 * m10) + cy])] (pts.filter (fun b => b.1 != v) ++ ρ)
   | .bdry _, _, _ => False
   | .bdryL _, _, _ => False
   | .bdryR _, _, _ => False
@@ -368,15 +368,15 @@ theorem bdryContains_iff_bdryMem (τ : Tol K) (D : Dom K) : ∀ (pts ρ : Env K)
     simp only [bdryContains, containsAux] at h
     split at h
     · rename_i x tx hp ht
-      rw [ih _ ρ r hs (hnd.1 x tx hp ht) h]
+      rw [ih _ _ r hs (hnd.1 x tx hp ht) h]
       simp only [bdryMem, hp, ht]
       simp
     · rename_i x y tx ty hp ht
-      rw [ih _ ρ r hs (hnd.2.1 x y tx ty hp ht) h]
+      rw [ih _ _ r hs (hnd.2.1 x y tx ty hp ht) h]
       simp only [bdryMem, hp, ht]
       simp
     · rename_i x y z tx ty tz hp ht
-      rw [ih _ ρ r hs (hnd.2.2 x y z tx ty tz hp ht) h]
+      rw [ih _ _ r hs (hnd.2.2 x y z tx ty tz hp ht) h]
       simp only [bdryMem, hp, ht]
       simp
     · simp at h
@@ -386,7 +386,7 @@ theorem bdryContains_iff_bdryMem (τ : Tol K) (D : Dom K) : ∀ (pts ρ : Env K)
     split at h
     · rename_i x y m00 m01 m10 m11 cx cy hp hm hc
       obtain ⟨hdet, hnd'⟩ := hnd x y m00 m01 m10 m11 cx cy hp hm hc
-      rw [ih _ ρ r hs hnd' h]
+      rw [ih _ _ r hs hnd' h]
       simp only [bdryMem, hp, hm, hc]
       simp
     · simp at h
@@ -406,15 +406,15 @@ theorem bdryMem_translate (τ : Tol K) (v : String) (d : Dom K) (t : PFun K) (ρ
   · rename_i x tx htx
     subst hq
     refine Or.inl ⟨_, tx, env_get_head _ _ _, by rw [List.cons_append, List.nil_append, ht, htx], ?_⟩
-    rw [add_sub_cancel_right]; exact hm
+    rw [add_sub_cancel_right, filter_single]; exact hm
   · rename_i x y tx ty htx
     subst hq
     refine Or.inr (Or.inl ⟨_, _, tx, ty, env_get_head _ _ _, by rw [List.cons_append, List.nil_append, ht, htx], ?_⟩)
-    rw [add_sub_cancel_right, add_sub_cancel_right]; exact hm
+    rw [add_sub_cancel_right, add_sub_cancel_right, filter_single]; exact hm
   · rename_i x y z tx ty tz htx
     subst hq
     refine Or.inr (Or.inr ⟨_, _, _, tx, ty, tz, env_get_head _ _ _, by rw [List.cons_append, List.nil_append, ht, htx], ?_⟩)
-    rw [add_sub_cancel_right, add_sub_cancel_right, add_sub_cancel_right]; exact hm
+    rw [add_sub_cancel_right, add_sub_cancel_right, add_sub_cancel_right, filter_single]; exact hm
 
 theorem bdryMem_rotate (τ : Tol K) (v : String) (d : Dom K) (m c : PFun K) (ρ : Env K) (q p : List K)
     (im : m.indep v) (ic : c.indep v)
@@ -433,7 +433,7 @@ theorem bdryMem_rotate (τ : Tol K) (v : String) (d : Dom K) (m c : PFun K) (ρ 
   have a2 : (m00 * (m10 * (x - cx) + m11 * (y - cy) + cy - cy) - m10 * (m00 * (x - cx) + m01 * (y - cy) + cx - cx)) /
       (m00 * m11 - m01 * m10) + cy = y := by
     rw [div_add' _ _ _ hd, div_eq_iff hd]; ring
-  rw [a1, a2]; exact hm
+  rw [a1, a2, filter_single]; exact hm
 
 section bsamples
 variable [Transc K]
@@ -532,4 +532,65 @@ example (pts : Env ℝ)
 example : ∀ p ∈ unionAppend [1, 2, 3] [4, 5, 6] (fun x => x % 2 == 0), p ∈ [1, 2, 3] ∨ (p ∈ [4, 5, 6] ∧ (p % 2 == 0) = false) :=
   unionAppend_sound _ _ _
 
+end TPV.Geom
+
+namespace TPV.Geom
+section
+variable {α : Type}
+
+/-- D.2b `_random_boundary_points_if_n_eq_1`: one row per parameter row, each an accepted proposal of `∂A` or `∂B` -/
+theorem n1BdryLoop_sound (propA propB : Nat → List α) (ok : α → Bool) (P : α → Prop)
+    (hA : ∀ rd p, p ∈ propA rd → ok p = true → P p) (hB : ∀ rd p, p ∈ propB rd → ok p = true → P p) :
+    ∀ (fuel rd : Nat) (final : List (Option α)) (r : Nat) (out : List α),
+      (∀ p, some p ∈ final → P p) → n1BdryLoop propA propB ok fuel rd final = some (r, out) →
+      out.length = final.length ∧ ∀ p ∈ out, P p := by
+  intro fuel
+  induction fuel with
+  | zero =>
+    intro rd final r out hinv h
+    unfold n1BdryLoop at h
+    split at h
+    · rename_i hall
+      simp only [Option.some.injEq, Prod.mk.injEq] at h
+      obtain ⟨_, rfl⟩ := h
+      refine ⟨filterMap_id_length final hall, fun p hp => ?_⟩
+      rw [List.mem_filterMap] at hp
+      obtain ⟨a, ha, rfl⟩ := hp
+      exact hinv p ha
+    · simp at h
+  | succ f ih =>
+    intro rd final r out hinv h
+    unfold n1BdryLoop at h
+    split at h
+    · rename_i hall
+      simp only [Option.some.injEq, Prod.mk.injEq] at h
+      obtain ⟨_, rfl⟩ := h
+      refine ⟨filterMap_id_length final hall, fun p hp => ?_⟩
+      rw [List.mem_filterMap] at hp
+      obtain ⟨a, ha, rfl⟩ := hp
+      exact hinv p ha
+    · simp only at h
+      have hps : ∀ p ∈ (if (rd % 2 == 0) = true then propA rd else propB rd), ok p = true → P p := by
+        intro p hp hok
+        split at hp
+        · exact hA rd p hp hok
+        · exact hB rd p hp hok
+      generalize (if (rd % 2 == 0) = true then propA rd else propB rd) = ps at h hps
+      split at h
+      · rename_i hlen
+        have := ih _ _ _ _ ?_ h
+        · refine ⟨?_, this.2⟩
+          rw [this.1]; simp [List.length_zip, hlen]
+        · intro p hp
+          rw [List.mem_map] at hp
+          obtain ⟨⟨old, q⟩, hz, hq⟩ := hp
+          simp only at hq
+          split at hq
+          · rename_i hok
+            simp only [Option.some.injEq] at hq; subst hq
+            rw [Bool.and_eq_true] at hok
+            exact hps _ (List.of_mem_zip hz).2 hok.1
+          · subst hq; exact hinv p (List.of_mem_zip hz).1
+      · simp at h
+end
 end TPV.Geom
